@@ -342,6 +342,81 @@ fn hash_name(t: &mut Tape) -> &'static str {
     ["", "sha256", "sha512", "blake2s", "sha3256", "sha512256"][t.usize(6)]
 }
 
+/// The adversary against Ed25519 truncated verification who registers a *low-order public key* (the neutral
+/// point decodes as a key): k*A vanishes, so V = 8*(R - (s0 + 2^251)*B) is whatever it wants - it picks a target
+/// point T in the prime-order subgroup and sends R = T/8 + (s0 + 2^251)*B. Targets are chosen against the
+/// search structure (a sorted table keyed by the low 48 bits of Montgomery u coordinates of j*2^240*B):
+/// u = all-ones / zero in its low 48 bits (extreme search keys), a real table entry, a different point with
+/// the same 48-bit key as a table entry, the neutral, +/-U. Returns (key bytes, 64-byte truncated signature).
+fn ed25519_trunc_chosen_v(t: &mut Tape, rng: &mut SimRng, rm: usize) -> Option<(Vec<u8>, Vec<u8>, &'static str)> {
+    use crrl::ed25519::{Point, Scalar};
+    use crrl::field::GF25519;
+    // point in the prime-order subgroup whose Montgomery u has the given low 48 bits
+    let with_low48 = |low: u64, rng: &mut SimRng| -> Option<Point> {
+        for _ in 0..200 {
+            let mut ub = rng.bytes(32);
+            ub[..6].copy_from_slice(&low.to_le_bytes()[..6]);
+            ub[31] &= 0x3F;
+            let u = GF25519::decode_reduce(&ub);
+            if u.encode()[..6] != low.to_le_bytes()[..6] {
+                continue;
+            }
+            let y = (u - GF25519::ONE) / (u + GF25519::ONE);
+            let mut e = y.encode();
+            if rng.u64() & 1 == 1 {
+                e[31] |= 0x80;
+            }
+            if let Some(p) = Point::decode(&e) {
+                if p.is_in_subgroup() != 0 && p.isneutral() == 0 {
+                    return Some(p);
+                }
+            }
+        }
+        None
+    };
+    let mut sh = [0u8; 32];
+    sh[30] = 1; // 2^240
+    let t240 = Scalar::decode_reduce(&sh);
+    let (target, what): (Point, &'static str) = match t.usize(7) {
+        0 => (with_low48(0xFFFF_FFFF_FFFF, rng)?, "u low bits all ones"),
+        1 => (with_low48(0, rng)?, "u low bits zero"),
+        2 => (Point::BASE * (t240 * Scalar::from_u64(t.choose(1 << 14))), "a table entry"),
+        3 => {
+            let e = Point::BASE * (t240 * Scalar::from_u64(1 + t.choose((1 << 14) - 1)));
+            let ub = e.to_montgomery_u().encode();
+            let mut l = [0u8; 8];
+            l[..6].copy_from_slice(&ub[..6]);
+            (with_low48(u64::from_le_bytes(l), rng)?, "another point with a table entry's key")
+        }
+        4 => (Point::NEUTRAL, "the neutral"),
+        5 => (Point::BASE * (t240 * Scalar::from_u64(1 << 14)), "the last table entry"),
+        _ => {
+            // +/- U = 2^(256 - rm + 3) * B
+            let mut b = [0u8; 34];
+            let e = 259 - rm;
+            b[e >> 3] = 1 << (e & 7);
+            let u = Point::BASE * Scalar::decode_reduce(&b);
+            (if t.chance(1, 2) { u } else { -u }, "+/-U")
+        }
+    };
+    let nbits = 256 - rm;
+    let mut s0b = rng.bytes(32);
+    for bit in nbits..256 {
+        s0b[bit >> 3] &= !(1u8 << (bit & 7));
+    }
+    let s0 = Scalar::decode_reduce(&s0b);
+    let mut t251 = [0u8; 32];
+    t251[31] = 0x08;
+    let w = target * (Scalar::ONE / Scalar::from_u64(8));
+    let r = w + Point::BASE * (s0 + Scalar::decode_reduce(&t251));
+    let mut sig = r.encode().to_vec();
+    sig.extend_from_slice(&s0b);
+    for i in 0..rm / 8 {
+        sig[63 - i] = 0x77;
+    }
+    Some((Point::NEUTRAL.encode().to_vec(), sig, what))
+}
+
 fn ex_ed25519(n: &mut Net, out: &mut RunOut, tier: Tier) {
     use crrl::ed25519::{PrivateKey, PublicKey};
     let seed = n.rng.bytes(32);
@@ -415,6 +490,17 @@ fn ex_ed25519(n: &mut Net, out: &mut RunOut, tier: Tier) {
         out.ev(format_args!(" verify_trunc rm={} -> {:?}", rm, r.map(|x| x.map(|s| hex(&s)))));
         yesno(out, "ed25519trunc", matches!(r, Some(Some(_))));
         out.probe("probe.exchange.truncated_verification");
+    }
+    if n.t.chance(1, 12) {
+        let rm = rm_bits(n.t, tier);
+        let mut arng = SimRng::new(n.rng.u64());
+        if let Some((kb, ts, what)) = ed25519_trunc_chosen_v(n.t, &mut arng, rm) {
+            out.probe("probe.exchange.ed25519_trunc_low_order_key_chosen_target");
+            if let Some(Some(pkx)) = g!(out, "call.ed25519.PublicKey_decode", hex(&kb), PublicKey::decode(&kb)) {
+                let r = g!(out, "call.ed25519.verify_trunc_raw", format!("rm={} {} ({})", rm, hex(&ts), what), pkx.verify_trunc_raw(&ts, rm, &msg));
+                out.ev(format_args!(" low-order key, chosen target ({}) rm={} -> {:?}", what, rm, r.map(|x| x.map(|s| hex(&s)))));
+            }
+        }
     }
     // The signer-adversary against the baby-step / giant-step search of truncated verification: the missing top
     // bits s1 of S are found as s1 = a + I*b (0 <= a < I, -J <= b <= J). Honest signatures land on the edges of
